@@ -99,6 +99,19 @@ CLAIMED = {
         "6 C09",
         TECH,
     ),
+    "C10": (
+        "Bounded solver-based check that rewrites preserve what is computed: copy, cloudpickle round trip, join, |, update_renames, update_scope "
+        "(dotted keys and nested dicts) and its removal, nest_funcs('*') and over every connected subset, simplified_pipeline, split_disconnected, "
+        "and compositions of two (three in the thorough tier) are applied to RUN-T pipelines; original and rewritten pipeline are evaluated on "
+        "the same ALL-integer symbolic inputs for every output, the original must be unchanged, and a later update_defaults on either object must "
+        "not affect the other. The same rewrites followed by map on MAP-T templates equal the denotation. add_mapspec_axis lifts pointwise: "
+        "every dependent output gains the axis and its slice n equals the original result for p = p[n]; other outputs are unchanged. Two "
+        "recorded findings (nesting with a bound-only parameter; nested multi-output leaf) are pinned.",
+        "Trusted: z3, CrossHair path exhaustion and builtin models; rewrites run natively on concrete objects, evaluation is symbolic. Outside: > 3 "
+        "composed rewrites, resources/profiling attributes, pickling into another interpreter.",
+        "6 C10",
+        TECH,
+    ),
     "C11": (
         "Bounded solver-based check of Pipeline.subpipeline(I, S), map(output_names=S) and map(auto_subpipeline=True): on the RUN-T tables every "
         "candidate (S of size 1..2, I every minimal computable set of provided names - roots, interior, mixed - and each with one member removed) "
